@@ -70,6 +70,11 @@ BendFailing(ev) ==
          (IF adm # {} THEN {} ELSE {<<0, "case_too_close_to_a_fitting_boundary">>})
          \cup (IF \E k \in adm : ChoiceOK(ev.choices[k]) THEN {}
                ELSE {<<0, "outline_is_not_the_swept_region_of_any_admissible_set_of_bends">>})
+         \* the centre line that PATH records are written from (element_center of the same path flagged
+         \* simple) follows the centre curve of an admissible set of bends, to within the tolerance budget
+         \cup (IF "cdev" \notin DOMAIN ev.choices[1] THEN {}
+               ELSE IF ev.cerr = 0 /\ ev.cfinite /\ \E k \in adm : ev.choices[k].cdev <= KClear THEN {}
+               ELSE {<<0, "centre_line_is_not_the_centre_curve_of_any_admissible_set_of_bends">>})
 
 Check(ev) == CASE ev.e = "fpbook" -> BookFailing(ev)
                [] ev.e = "fpbend" -> BendFailing(ev)
